@@ -2372,7 +2372,7 @@ func (a *Agent) TaskDispatch(RequestID uint32, CommandID uint32, Parser *parser.
 			a.Encryption.AESKey = Parser.ParseAtLeastBytes(32)
 			a.Encryption.AESIv = Parser.ParseAtLeastBytes(16)
 
-			if Parser.CanIRead([]parser.ReadType{parser.ReadInt32, parser.ReadBytes, parser.ReadBytes, parser.ReadBytes, parser.ReadBytes, parser.ReadBytes, parser.ReadInt32, parser.ReadInt32, parser.ReadInt32, parser.ReadInt32, parser.ReadInt32, parser.ReadInt32, parser.ReadInt32, parser.ReadInt32, parser.ReadInt32, parser.ReadInt32, parser.ReadInt32, parser.ReadInt32, parser.ReadInt64, parser.ReadInt32}) {
+			if Parser.CanIRead([]parser.ReadType{parser.ReadInt32, parser.ReadBytes, parser.ReadBytes, parser.ReadBytes, parser.ReadBytes, parser.ReadBytes, parser.ReadInt32, parser.ReadInt32, parser.ReadInt32, parser.ReadInt32, parser.ReadInt32, parser.ReadInt64, parser.ReadInt32, parser.ReadInt32, parser.ReadInt32, parser.ReadInt32, parser.ReadInt32, parser.ReadInt32, parser.ReadInt32, parser.ReadInt32, parser.ReadInt64, parser.ReadInt32}) {
 				DemonID = Parser.ParseInt32()
 				Hostname = Parser.ParseString()
 				Username = Parser.ParseString()
@@ -2850,7 +2850,7 @@ func (a *Agent) TaskDispatch(RequestID uint32, CommandID uint32, Parser *parser.
 					} else {
 						IsFirst := true
 						if ListOnly {
-							WhatToRead = []parser.ReadType{parser.ReadBytes}
+							WhatToRead = []parser.ReadType{parser.ReadBytes, parser.ReadInt32, parser.ReadInt32}
 						} else {
 							WhatToRead = []parser.ReadType{parser.ReadBytes, parser.ReadInt32, parser.ReadInt32, parser.ReadInt64}
 						}
@@ -3266,6 +3266,10 @@ func (a *Agent) TaskDispatch(RequestID uint32, CommandID uint32, Parser *parser.
 
 	case COMMAND_PROC_LIST:
 		logger.Debug(fmt.Sprintf("Agent: %x, Command: COMMAND_PROC_LIST", AgentID))
+		if !Parser.CanIRead([]parser.ReadType{parser.ReadInt32}) {
+			logger.Debug(fmt.Sprintf("Agent: %x, Command: COMMAND_PROC_LIST, Invalid packet", AgentID))
+			break
+		}
 		type Process struct {
 			Name      string
 			ImagePath string
@@ -3930,6 +3934,10 @@ func (a *Agent) TaskDispatch(RequestID uint32, CommandID uint32, Parser *parser.
 		break
 
 	case COMMAND_INLINEEXECUTE:
+		if !Parser.CanIRead([]parser.ReadType{parser.ReadInt32}) {
+			logger.Debug(fmt.Sprintf("Agent: %x, Command: COMMAND_INLINEEXECUTE, Invalid packet", AgentID))
+			break
+		}
 		var (
 			OutputMap = make(map[string]string)
 			Type      = Parser.ParseInt32()
